@@ -84,6 +84,22 @@ def run(ctx):
             i = rng.randrange(len(t) + 1)
             a, _ = rd.render(rng, t[:i]); b, _ = rd.render(rng, t[i:])
             texts.append((a + rng.choice(STRAYS) + rng.choice(["", " ", "\n"]) + b).encode())
+    # large sources: the offending token far behind the first buffer-fulls (sizes around one and two times 8 KiB, and more)
+    for _ in range(6 if quick else 60):
+        tail = rd.gen_spec(rng, 3)[3:]                      # declarations of a random specification, without its header
+        i = rng.randrange(len(tail) + 1)
+        bad = rng.choice([tail[:i] + tail[i + 1:], tail[:i] + [rng.randrange(22)] + tail[i:], tail[:i], tail])
+        for target in rng.sample([8192, 8200, 9000, 12288, 16384, 16400, 20000, 40000], 3):
+            body = [rd.T["grammar"], rd.T["IDENT"], rd.T[";"]]
+            txt = ""
+            while len(txt) < target - 40:
+                body += [rd.T["IDENT"], rd.T["="], rd.T["IDENT"], rd.T["STRING"], rd.T[";"]]
+                if len(body) % 50 == 3:
+                    txt, _ = rd.render(rng, body)
+            txt, _ = rd.render(rng, body + bad)
+            texts.append(txt.encode())
+            a, _ = rd.render(rng, body + bad[:i]); b, _ = rd.render(rng, bad[i:])
+            texts.append((a + rng.choice(STRAYS) + " " + b).encode())
     texts = [x if x else b" " for x in texts]
     lines = ["-1 " + hx(x) for x in texts]
     impl = ctx.run_impl("parse", lines)
